@@ -43,10 +43,15 @@ const (
 
 // ParseFrugal parses the given Frugal file into its semantic representation.
 func ParseFrugal(filePath string) (*Frugal, error) {
-	return parseFrugal(filePath, []string{}, map[string]*Frugal{})
+	return parseFrugal(filePath, []string{}, []string{}, map[string]*Frugal{})
 }
 
-func parseFrugal(filePath string, visitedIncludes []string, cache map[string]*Frugal) (*Frugal, error) {
+// parseFrugal parses filePath and, recursively, its includes. visitedIncludes
+// holds the names and visitedPaths the paths of the files on the current
+// include chain: a cycle is a PATH that repeats (two different files may share
+// a base name, e.g. a/common.frugal including ../b/common.frugal); the names
+// are kept for the error message.
+func parseFrugal(filePath string, visitedIncludes, visitedPaths []string, cache map[string]*Frugal) (*Frugal, error) {
 	file, err := os.Open(filePath)
 	if err != nil {
 		return nil, err
@@ -58,7 +63,7 @@ func parseFrugal(filePath string, visitedIncludes []string, cache map[string]*Fr
 		return nil, err
 	}
 
-	if contains(visitedIncludes, name) {
+	if contains(visitedPaths, filePath) {
 		return nil, fmt.Errorf("Circular include: %s", append(visitedIncludes, name))
 	}
 
@@ -67,6 +72,7 @@ func parseFrugal(filePath string, visitedIncludes []string, cache map[string]*Fr
 	}
 
 	visitedIncludes = append(visitedIncludes, name)
+	visitedPaths = append(visitedPaths, filePath)
 
 	parsed, err := ParseReader(filePath, file)
 	if err != nil {
@@ -84,7 +90,7 @@ func parseFrugal(filePath string, visitedIncludes []string, cache map[string]*Fr
 			return nil, fmt.Errorf("Bad include name: %s", include)
 		}
 
-		parsedIncl, err := parseFrugal(filepath.Join(frugal.Dir, include), visitedIncludes, cache)
+		parsedIncl, err := parseFrugal(filepath.Join(frugal.Dir, include), visitedIncludes, visitedPaths, cache)
 		if err != nil {
 			return nil, fmt.Errorf("Include %s: %s", include, err)
 		}
